@@ -230,14 +230,29 @@ class SimFS:
                 fs.call('getsize', rel)
             return o_getsize(path)
 
+        o_rename, o_replace, o_remove, o_unlink, o_mkdir = os.rename, os.replace, os.remove, os.unlink, os.mkdir
+        self._orig2 = (o_rename, o_replace, o_remove, o_unlink, o_mkdir)
+
+        def wrap2(orig, op):
+            def f(src, *a, **kw):
+                rel = fs.rel(src)
+                if rel is not None:
+                    fs.call(op, rel)
+                return orig(src, *a, **kw)
+            return f
+
         builtins.open = sim_open
         os.makedirs = sim_makedirs
         os.listdir = sim_listdir
         os.path.getsize = sim_getsize
+        os.rename, os.replace = wrap2(o_rename, 'rename'), wrap2(o_replace, 'rename')
+        os.remove, os.unlink = wrap2(o_remove, 'remove'), wrap2(o_unlink, 'remove')
+        os.mkdir = wrap2(o_mkdir, 'mkdir')
 
     def uninstall(self):
         if self._orig is not None:
             builtins.open, os.makedirs, os.listdir, os.path.getsize = self._orig
+            os.rename, os.replace, os.remove, os.unlink, os.mkdir = self._orig2
             self._orig = None
 
 
